@@ -358,9 +358,17 @@ def rule_lookup(ctx, F, rule2="R2", rule3="R3", ST=ST, SK=SK, floors=True):
         Kp1 = ("bin", "Add", I, one, "usize")
 
         def eq0(K):
+            """1 / 0 / None: the path established K == 0 / K != 0 / neither (an `== 0` test or a `match K { 0 => .. }`)"""
             for (t, v, s) in p.conds:
                 if t[0] == "bin" and t[1] == "Eq" and t[2] == K and t[3] == ("const", "usize", 0):
                     return v
+                if t == K:
+                    if v == 0:
+                        return 1
+                    if isinstance(v, tuple) and v[0] == "not" and 0 in v[1]:
+                        return 0
+                    if isinstance(v, int) and v != 0:
+                        return 0
             return None
 
         def plain(K):
@@ -376,6 +384,8 @@ def rule_lookup(ctx, F, rule2="R2", rule3="R3", ST=ST, SK=SK, floors=True):
             alts = [plain(K)]
             if eq0(K) == 1:
                 alts.append(plain(("const", "usize", 0)))
+                # frames.first() is frames.get(0)
+                alts.append(("deref", ("field", ("variant", ("call", "core::slice::<impl [T]>::first", (("&", frames),)), "Some"), "0")))
             return alts
 
         def matches(fr, exp):
@@ -417,9 +427,11 @@ def rule_lookup(ctx, F, rule2="R2", rule3="R3", ST=ST, SK=SK, floors=True):
             # lies before frame 0, or a neighbour is missing on a path that cannot happen (idx-1 with idx > 0 checked;
             # idx+1 after `idx != last` was established).  A missing idx+1 alone is *not* one: that is the last frame, whose
             # value must be held
+            first_missing = any(t[0] == "discr" and t[1] == ("call", "core::slice::<impl [T]>::first", (("&", frames),)) and v == 0
+                                for (t, v, s) in p.conds)
             ok = any(t[0] == "discr" and t[1] == gm[0] and v == 0 for (t, v, s) in p.conds) or bool(empty) or \
-                missing(I) or missing(("const", "usize", 0)) or \
-                (lt == 1 and (i_gt0 == [0] or i_lt1 == [1] or missing(Km1))) or \
+                missing(I) or missing(("const", "usize", 0)) or first_missing or \
+                (lt == 1 and (i_gt0 == [0] or i_lt1 == [1] or eq0(I) == 1 or missing(Km1))) or \
                 (lt != 1 and missing(Kp1) and last_dec == [0])
             ctx.ob(rule2, lab + "/none-row", ok, "None is returned only when there is no bracketing frame", body["span"],
                    trace_of(p), what="spurious-none")
